@@ -29,7 +29,10 @@ func NewParams(schema *Schema, su SimpleURL, resType string) (*Params, error) {
 	// Remove duplicates and uncessary includes
 	for i := len(incs) - 1; i >= 0; i-- {
 		if i > 0 {
-			if strings.HasPrefix(incs[i], incs[i-1]) {
+			// A path is only made unnecessary by the same path or by
+			// a path that extends it with more relationships, not by
+			// a name that merely starts with the same letters.
+			if incs[i] == incs[i-1] || strings.HasPrefix(incs[i], incs[i-1]+".") {
 				incs = append(incs[:i-1], incs[i:]...)
 			}
 		}
